@@ -61,7 +61,10 @@ RULE = ("case kinds: point (one geometry; CIS default start + random orthonormal
         "different geometries, vs alone), ubatch (3-4 geometries of one molecule, near-equilibrium + strongly distorted + "
         "stretched, n_states 1-3, EVERY batch order, each member vs dense and vs alone), maxiter (user iteration cap 1,2,3,4,6,"
         "default: raise or true eigenpairs), lbatch (same-species batch whose rows carry different per-atom learned "
-        "g_ss/g_sp/g_pp/g_p2/h_sp/zeta, both orders, each row vs dense from its own values and vs alone), mbatch (different molecules padded into one batch -> rcis_any_batch, vs alone). "
+        "g_ss/g_sp/g_pp/g_p2/h_sp/zeta, both orders, each row vs dense from its own values and vs alone), leps (user "
+        "scf_eps 1e-3..1e-5 > 0.1 x tolerance: roots vs the dense spectrum of an independently tight SCF), mreeval (2nd / 3rd "
+        "evaluation of ONE Molecule holding a mixed batch with duplicate (nocc, norb) groups after 0.10-0.15 A displacements: "
+        "each row vs dense at the new geometry and vs a fresh Molecule), mbatch (different molecules padded into one batch -> rcis_any_batch, vs alone). "
         "Every finished solve is judged against the dense A/B built from its own returned orbitals.  A case is "
         "non-trivial when at least one judged solve had more singles than requested roots and the Davidson loop "
         "needed >= 2 sigma builds; distinct by SHA-1 of the case")
@@ -80,13 +83,16 @@ ASSUMPTIONS = [
 REQUIRED_MONITORS = ["roots_checked", "rpa_roots_checked", "degenerate_roots_checked", "sigma_crosschecks",
                      "random_start_solves", "reuse_solves", "mixed_batch_mols_judged", "homo_batch_mols_judged",
                      "window_solves", "iterative_solves", "uneven_rpa_batch_orders", "uneven_cis_batch_orders",
-                     "max_iter_cap_raised", "max_iter_returned_and_judged", "learned_batch_rows_judged"]
+                     "max_iter_cap_raised", "max_iter_returned_and_judged", "learned_batch_rows_judged",
+                     "loose_user_eps_roots_vs_tight_reference", "reevaluated_duplicate_group_rows_with_mo_reorder"]
 CASE_TIMEOUT = 900.0
 MIN_NONTRIVIAL = 8
 BUDGET_S = {"quick": 200, "thorough": 1700}
 
 SCF_EPS = 1e-10
 SCF_ALLOW = 1e-6          # allowance for two SCF solutions of the same geometry reached through different histories (1e4 x eps)
+K_LOOSE = 1e3             # roots / Fock self-consistency vs the documented SCF threshold 0.1 x tol: max|dP| <= 15 eps times a
+                          # Lipschitz constant of a few tens (eV per unit density) -> 1e3 x eps; observed on main <= 1.5 x eps
 ORTHO_TOL = 1e-8
 RES_ALLOW = 1.05
 RES_ABS = 1e-11
@@ -417,6 +423,39 @@ def gen_cases(tier, seed):
         cases.append({"kind": "window", "mol": name, "method": method, "geom": _geom_spec(g, name, is_sym),
                       "window": [nb, ma], "n_states": _nstates(g, nb * ma), "tol": float(_pick(g, TOLS)),
                       "starts": [int(g.integers(0, 2**31))]})
+    # ---- round-4 classes (own PRNG stream: the cases above stay what they were)
+    g4 = gen.rng("C16", tier, "round4")
+    n_le, n_re = (6, 6) if tier == "quick" else (90, 90)
+    # (i) loose USER scf_eps: the package promises to tighten the SCF to 0.1 x tolerance.  Roots of the loose-eps call are
+    #     compared with the dense spectrum of an INDEPENDENTLY tight SCF (a reference built from the same orbitals cannot see
+    #     a tightening that did not happen)
+    le_pool = [n for n in ("HCOOH", "CH3OH", "CH3NH2", "CH2O", "HNO", "CH3F", "HOOH", "SO2", "CH3Cl", "CH3SH", "N2O", "HCN")
+               + (("C4H6", "C3H8", "C2H6") if tier != "quick" else ("C4H6",)) if n in _pool()]
+    for i in range(n_le):
+        name = ["HCOOH", "C4H6"][i] if i < 2 else _pick(g4, le_pool)
+        no, nv = _dims(name)
+        tol = float(_pick(g4, [1e-7, 1e-7, 1e-8, 1e-6]))
+        cases.append({"kind": "leps", "mol": name, "method": _pick(g4, _methods_for(name)), "xm": "rpa" if i % 2 else "cis",
+                      "geom": {"mol": name, "mode": "distort", "seed": int(g4.integers(0, 2**31)), "sigma": 0.05, "rot": "haar"},
+                      "n_states": int(g4.integers(1, min(6, no * nv) + 1)), "tol": tol,
+                      "user_eps": [e for e in (1e-3, 1e-4, 1e-5) if e > 0.1 * tol]})
+    # (ii) SECOND / THIRD evaluation of one Molecule object holding a MIXED batch with duplicate (nocc, norb) groups, after
+    #      displacements large enough to reorder MOs; every row vs dense at the new geometry and vs a fresh Molecule
+    dup_groups = [["CH3OH", "CH3OH", "H2O"], ["CH3NH2", "CH3NH2", "NH3"], ["CH4", "CH4", "CH2O"], ["N2", "CO", "H2O"],
+                  ["C2H6", "C2H6", "CH3F", "CH3F"], ["NH3", "NH3", "NH3", "HCN"], ["CH3F", "CH3F", "C2H4"],
+                  ["CH2O", "CH2O", "CH3OH", "CH3OH"], ["HCOOH", "HCOOH", "H2O"], ["NO+", "CN-", "CH4"]]
+    for i in range(n_re):
+        method = _pick(g4, ["AM1", "PM3", "MNDO"])
+        grp = dup_groups[0] if i == 0 else _pick(g4, dup_groups)
+        grp = [n for n in grp if available(n, method)]
+        order = [int(x) for x in g4.permutation(len(grp))] if i % 2 else list(range(len(grp)))
+        nmin = min(_dims(n)[0] * _dims(n)[1] for n in grp)
+        cases.append({"kind": "mreeval", "method": method, "n_states": int(g4.integers(1, min(5, nmin) + 1)),
+                      "tol": float(_pick(g4, [1e-6, 1e-7, 1e-8])),
+                      "geoms": [{"mol": grp[k], "mode": _pick(g4, ["sym", "distort"]), "seed": int(g4.integers(0, 2**31)),
+                                 "sigma": 0.03, "rot": "haar"} for k in order],
+                      "displacement": float(_pick(g4, [0.10, 0.15, 0.15])), "steps": 2,
+                      "disp_seed": int(g4.integers(0, 2**31)), "reuse_P0": bool(g4.random() < 0.5), "extra_pad": int(g4.integers(0, 2))})
     if tier == "quick":
         # heaviest first (estimated solves x size), so that 16 workers finish together
         def cost(c):
@@ -428,6 +467,7 @@ def gen_cases(tier, seed):
                       "mbatch": 2 * len(c.get("geoms", [])), "point": 3 + 2 * len(c.get("starts", [])),
                       "ubatch": len(c.get("geoms", [])) * (1 + len(c.get("orders", []))),
                       "maxiter": len(c.get("caps", [])) * c.get("nbatch", 1), "lbatch": 3 * c.get("nbatch", 2),
+                      "leps": 1 + len(c.get("user_eps", [])), "mreeval": 6 * len(c.get("geoms", [])),
                       "window": 2 + len(c.get("starts", []))}[c["kind"]]
             return nsolve * (1.0 + (nov / 60.0) ** 2)
         order = sorted(range(len(cases)), key=lambda i: (-cost(cases[i]), i))
@@ -736,15 +776,15 @@ def _reference(acc, mol, b, window, hetero, cache, do_sigma):
         virt = list(range(nocc, nocc + window[1]))
     else:
         occ, virt = list(range(nocc)), list(range(nocc, norb))
-    A, B = D.dense_AB(G, d["C"], d["e"], occ, virt)
-    ref = {"A": A, "B": B, "occ": occ, "virt": virt, "nov": len(occ) * len(virt), "d": d}
+    ref = {"occ": occ, "virt": virt, "nov": len(occ) * len(virt), "d": d}
     # --- guards on the integrals the oracle was built from
     if d["pairs"]:
         ss = np.abs(D.ss_klopman(d["Z"], d["X"], d["pairs"], par["g_ss"]) - d["w"][:, 0, 0]).max()
         acc.margin("guard_ss_klopman", ss, GUARD_SS)
         if not (ss <= GUARD_SS):
             acc.guard_fail = "pair -> atom mapping of molecule.w not as assumed (|dss| = %.2e)" % ss
-    if not do_sigma:
+    fock_clause = cache.get("fock_clause")       # (bound, what): self-consistency of the solver's orbitals judged as a CLAUSE
+    if not do_sigma and fock_clause is None:
         cache[("hcore", id(mol))] = None
     if ("hcore", id(mol)) not in cache:
         try:
@@ -768,11 +808,30 @@ def _reference(acc, mol, b, window, hetero, cache, do_sigma):
         C = d["C"]
         P = 2.0 * C[:, :nocc] @ C[:, :nocc].T
         Fmo = C.T @ (Hp + D.fock_2e(G, P)) @ C
-        fe = np.abs(Fmo - np.diag(d["e"])).max()
+        fdiag = np.diag(Fmo).copy()
+        off = float(np.abs(Fmo - np.diag(fdiag)).max())       # do the returned orbitals diagonalise their own Fock matrix?
+        dmis = float(np.abs(fdiag - d["e"]).max())            # are the returned orbital energies those of these orbitals?
+        if not (math.isfinite(off) and math.isfinite(dmis)):
+            off = dmis = float("nan")
         acc.m("fock_guard_checks")
-        acc.margin("guard_fock", fe, GUARD_FOCK)
-        if not (fe <= GUARD_FOCK):
-            acc.guard_fail = "C^T (Hcore + G[P]) C != diag(e_mo) (%.2e): dense integrals or orbitals not as assumed" % fe
+        if fock_clause is not None:
+            bound, what = fock_clause
+            if acc.margin("scf_consistency_of_solver_orbitals", max(off, dmis) if off == off else off, bound):
+                acc.v("orbitals-not-self-consistent", "solver-orbitals-not-converged-to-documented-scf-threshold",
+                      max_offdiagonal_fock_mo=off, max_orbital_energy_mismatch=dmis, bound=bound, what=what)
+        else:
+            acc.margin("guard_fock", off, GUARD_FOCK)
+            if not (off <= GUARD_FOCK):
+                acc.guard_fail = "C^T (Hcore + G[P]) C is not diagonal (%.2e): dense integrals or orbitals not as assumed" % off
+            elif acc.margin("orbital_energies_belong_to_orbitals", dmis, GUARD_FOCK):
+                # the orbitals DO diagonalise their Fock matrix (so the dense integrals are right), but the orbital energies
+                # handed to the response solver are not the eigenvalues of these orbitals
+                acc.v("orbital-energies-do-not-belong-to-orbitals", "e-mo-inconsistent-with-returned-orbitals",
+                      molecule_in_batch=b, mismatch=dmis, returned_e_mo=d["e"].tolist(), fock_diagonal=fdiag.tolist())
+                ref["e_returned"] = d["e"].copy()
+                d["e"] = fdiag        # judge against the matrix DEFINED by the returned orbitals
+    A, B = D.dense_AB(G, d["C"], d["e"], occ, virt)
+    ref["A"], ref["B"] = A, B
     # --- consistency monitor: the repository's sigma builder on unit vectors
     ref["sigma_dA"] = ref["sigma_dB"] = None
     if do_sigma:
@@ -799,8 +858,11 @@ def _reference(acc, mol, b, window, hetero, cache, do_sigma):
                         cache[skey] = (Ar.numpy(), Br.numpy())
                     Ar, Br = cache[skey]
                     Ar, Br = Ar[b], Br[b]
-            ref["sigma_dA"] = float(np.abs(Ar - A).max())
-            ref["sigma_dB"] = float(np.abs(Br - B).max())
+            A_mon, B_mon = A, B
+            if "e_returned" in ref:      # the sigma builder was fed the returned orbital energies: compare like with like
+                A_mon, B_mon = D.dense_AB(G, d["C"], ref["e_returned"], occ, virt)
+            ref["sigma_dA"] = float(np.abs(Ar - A_mon).max())
+            ref["sigma_dB"] = float(np.abs(Br - B_mon).max())
             acc.m("sigma_crosschecks")
             acc.margin("monitor_sigma_vs_dense_A", ref["sigma_dA"], SIGMA_TOL)
             acc.margin("monitor_sigma_vs_dense_B", ref["sigma_dB"], SIGMA_TOL)
@@ -1184,6 +1246,18 @@ def _note_raise(acc, info, tag):
         acc.notes.append("%s: %s" % (tag, info["raised"]))
 
 
+_SOLVER_GAVE_UP = ("Maximum iterations", "did not converge", "not converge", "negative eigenvalues", "very small eigenvalues",
+                   "imaginary roots")
+
+
+def _one_arm_exception(acc, info, partner_completed, tag, **wit):
+    """an exception in one arm of a metamorphic pair: a solver that says it gave up has the standing of a
+    non-convergence flag (loud, counted); any other exception while the partner arm completed is a violation"""
+    _note_raise(acc, info, tag)
+    if partner_completed and not any(k in info["raised"] for k in _SOLVER_GAVE_UP):
+        acc.v("exception-in-one-arm", "one-arm-exception-%s" % tag, message=info["raised"], **wit)
+
+
 def _scf_ok(info, b=None):
     sb = info.get("scf_bad")
     if sb is None:
@@ -1529,6 +1603,147 @@ def _lbatch(case, acc):
     return _finish(acc, obs)
 
 
+def _leps(case, acc):
+    """user scf_eps looser than 0.1 x tolerance: the documented tightening must really reach the SCF"""
+    Z, X, q, m = geometry(case["geom"])
+    xm, n_req, tol, method = case["xm"], case["n_states"], case["tol"], case["method"]
+    solver = "rpa" if xm == "rpa" else "rcis-batch"
+    obs = {"species": Z, "xm": xm, "tol": tol, "runs": {}}
+    # ---- reference arm: independently tight SCF (scf_eps 1e-10), dense spectrum of ITS orbitals
+    mol_t, es_t, info_t = _fresh(Z, X, _settings(method, xm, n_req, tol), q, m)
+    if info_t["raised"] or not _scf_ok(info_t):
+        if info_t["raised"]:
+            _note_raise(acc, info_t, "%s-tight-reference" % xm)
+        return _finish(acc, obs)
+    rec_t = _judge(acc, mol_t, 0, {"xm": xm, "tol": tol, "n_req": n_req, "solver": solver, "start": "default-guess",
+                                   "label": "tight SCF reference (scf_eps %g)" % SCF_EPS, "iters": info_t["iters"],
+                                   "stag": info_t["stagnation"]}, {}, do_sigma=True)
+    if rec_t.get("stop"):
+        return _finish(acc, obs)
+    if xm == "rpa":
+        rr = _rpa_ref(rec_t["ref"])
+        if rr is False:
+            return _finish(acc, obs)
+        spec = rr[0]
+    else:
+        spec = rec_t["ref"]["lam"]
+    obs["dense_tight"] = spec[: n_req + 2].tolist()
+    eps_eff = 0.1 * tol
+    for eps in case["user_eps"]:
+        sett = _settings(method, xm, n_req, tol)
+        sett["scf_eps"] = float(eps)
+        mol, es, info = _fresh(Z, X, sett, q, m)
+        if info["raised"]:
+            _one_arm_exception(acc, info, True, "%s-loose-user-eps" % xm, user_scf_eps=eps, tol=tol)
+            continue
+        if not _scf_ok(info):
+            acc.m("scf_not_converged")
+            continue
+        acc.cells.append("leps/%s/user_eps%g/tol%g" % (solver, eps, tol))
+        # (the orbitals the solver worked on must be self-consistent to the documented threshold: judged as a clause here)
+        cache = {"fock_clause": (K_LOOSE * eps_eff, "user scf_eps %g, tolerance %g => documented SCF threshold %g" % (eps, tol, eps_eff))}
+        rec = _judge(acc, mol, 0, {"xm": xm, "tol": tol, "n_req": n_req, "solver": solver, "start": "default-guess",
+                                   "label": "user scf_eps=%g (> 0.1 x tolerance)" % eps, "iters": info["iters"],
+                                   "stag": info["stagnation"]}, cache, do_sigma=False)
+        obs["runs"]["%g" % eps] = {"E": rec["E"][:n_req].tolist(), "Etot": rec["Etot"]}
+        if not rec.get("ok"):
+            continue
+        if not (abs(rec["Etot"] - rec_t["Etot"]) <= 1e-2):
+            acc.m("cross_run_skipped_different_scf_solution")
+            continue
+        n = min(n_req, len(rec["E"]), len(spec))
+        eb = max(rec["rpa_bound"][:n]) if "rpa_bound" in rec else math.sqrt(len(rec["E"]) * rec["ref"]["nov"]) * tol + EIG_ABS
+        bound = eb + K_LOOSE * eps_eff + 1e4 * SCF_EPS
+        dev = float(np.abs(rec["E"][:n] - spec[:n]).max())
+        acc.m("loose_user_eps_roots_vs_tight_reference", n)
+        if acc.margin("roots_vs_tight_scf_reference", dev, bound):
+            acc.v("roots-differ-from-tight-scf-reference", "loose-user-scf-eps-not-tightened-to-documented-threshold",
+                  user_scf_eps=eps, tol=tol, documented_scf_threshold=eps_eff, deviation=dev, bound=bound,
+                  returned=rec["E"][:n].tolist(), dense_of_tight_scf=spec[:n].tolist(),
+                  scf_eps_in_settings_after_build=float(getattr(mol, "seqm_parameters", {}).get("scf_eps", float("nan"))),
+                  dEtot=rec["Etot"] - rec_t["Etot"])
+    return _finish(acc, obs)
+
+
+def _mreeval(case, acc):
+    """2nd / 3rd evaluation of ONE Molecule object holding a mixed batch with duplicate (nocc, norb) groups"""
+    import torch
+    n_req, tol, method = case["n_states"], case["tol"], case["method"]
+    gs = [geometry(sp) for sp in case["geoms"]]
+    names = [sp["mol"] for sp in case["geoms"]]
+    nb = len(gs)
+    qs = [g[2] for g in gs]
+    sett = _settings(method, "cis", n_req, tol)
+    Xcur = [np.array(g[1], float) for g in gs]
+
+    def padded():
+        return gen.pad_batch([(gs[b][0], Xcur[b]) for b in range(nb)], extra_pad=case.get("extra_pad", 0), pad_value=0.0)
+
+    S, C = padded()
+    mol, es, info = _fresh(S, C, sett, qs if any(qs) else 0, 1)
+    obs = {"molecules": names, "E": []}
+    if info["raised"]:
+        _note_raise(acc, info, "mreeval-first")
+        return _finish(acc, obs)
+    hetero = info.get("path") == "rcis_any_batch"
+    solver = "rcis-any-batch" if hetero else "rcis-batch"
+    keys = [(int(mol.nocc[b]), int(mol.norb[b])) for b in range(nb)]
+    dup = [keys.count(k) > 1 for k in keys]
+    cache = {}
+    for b in range(nb):
+        if _scf_ok(info, b):
+            _judge(acc, mol, b, {"xm": "cis", "tol": tol, "n_req": n_req, "hetero": hetero, "solver": solver, "start": "default-guess",
+                                 "label": "first evaluation, row %d (%s)" % (b, names[b]), "iters": info["iters"],
+                                 "stag": info["stagnation"]}, cache, do_sigma=(b == 0))
+            if hetero:
+                acc.m("mixed_batch_mols_judged")
+    gd = np.random.default_rng(case["disp_seed"])
+    for t in range(1, case.get("steps", 2) + 1):
+        for b in range(nb):
+            Xcur[b] = gen.distort(Xcur[b], gd, sigma=case["displacement"])
+            with torch.no_grad():
+                mol.coordinates[b, : len(gs[b][0])] = torch.as_tensor(Xcur[b], dtype=mol.coordinates.dtype)
+        info = _call(es, mol, **({"P0": mol.dm} if case.get("reuse_P0") else {}))
+        S, C = padded()
+        mol_f, es_f, info_f = _fresh(S, C, sett, qs if any(qs) else 0, 1)      # history-free arm
+        if info["raised"]:
+            _one_arm_exception(acc, info, not info_f["raised"], "mixed-batch-reevaluation", evaluation=t + 1, molecules=names)
+            break
+        if info_f["raised"]:
+            _one_arm_exception(acc, info_f, True, "mixed-batch-fresh", evaluation=t + 1, molecules=names)
+        cache, cache_f = {}, {}
+        obs["E"].append(mol.cis_energies.detach().cpu().numpy()[:, :n_req].tolist())
+        for b in range(nb):
+            if not _scf_ok(info, b):
+                acc.m("scf_not_converged")
+                continue
+            nocc, norb = keys[b]
+            e = mol.e_mo[b].detach().cpu().numpy()[:norb]
+            reordered = bool(np.any(np.diff(e[:nocc]) < 0) or np.any(np.diff(e[nocc:]) < 0))
+            rec = _judge(acc, mol, b, {"xm": "cis", "tol": tol, "n_req": n_req, "hetero": hetero, "solver": solver,
+                                       "start": "default-guess",
+                                       "label": "evaluation %d of the same Molecule, row %d (%s), (nocc, norb) shared: %s, MO order changed: %s"
+                                                % (t + 1, b, names[b], dup[b], reordered),
+                                       "iters": info["iters"], "stag": info["stagnation"]}, cache, do_sigma=True)
+            acc.m("reevaluated_rows")
+            if hetero:
+                acc.m("mixed_batch_mols_judged")
+            if dup[b] and hetero:
+                acc.m("reevaluated_duplicate_group_rows")
+                if reordered:
+                    acc.m("reevaluated_duplicate_group_rows_with_mo_reorder")
+                    acc.cells.append("mreeval/duplicate-group/mo-reordered/eval%d" % (t + 1))
+            if info_f["raised"] or not _scf_ok(info_f, b):
+                continue
+            rec_f = _judge(acc, mol_f, b, {"xm": "cis", "tol": tol, "n_req": n_req, "hetero": hetero, "solver": solver,
+                                           "start": "default-guess", "label": "fresh Molecule at the geometry of evaluation %d, row %d (%s)"
+                                                                              % (t + 1, b, names[b]),
+                                           "iters": info_f["iters"], "stag": info_f["stagnation"]}, cache_f, do_sigma=False)
+            _compare_runs(acc, rec_f, rec, tol, tol, n_req, rec["ref"]["nov"], "reevaluated-mixed-batch-vs-fresh",
+                          "history-dependent-%s-reevaluation" % solver)
+    return _finish(acc, obs)
+
+
 def _mbatch(case, acc):
     n_req, tol, method = case["n_states"], case["tol"], case["method"]
     gs = [geometry(s) for s in case["geoms"]]
@@ -1583,6 +1798,10 @@ def run_case(case):
         return _maxiter(case, acc)
     if kind == "lbatch":
         return _lbatch(case, acc)
+    if kind == "leps":
+        return _leps(case, acc)
+    if kind == "mreeval":
+        return _mreeval(case, acc)
     if kind == "mbatch":
         return _mbatch(case, acc)
     raise ValueError("unknown case kind %r" % kind)
